@@ -292,6 +292,9 @@ func (p c07) Gen(c *run.Ctx, idx int) (json.RawMessage, error) {
 			cs.BodyB64, cs.Class = append([]byte(" \n\t\r "), base...), "whitespace-prefix"
 		case 8:
 			cs.BodyB64, cs.Class = nil, "empty-body"
+			if r.Intn(2) == 0 {
+				cs.BodyB64, cs.Class = []byte(pick(r, []string{" ", "\n", "\t\r\n  ", "    \n\n"})), "whitespace-only-body"
+			}
 		default:
 			cs.BodyB64, cs.Class = base, "good-body-any-content-type"
 		}
